@@ -1,11 +1,11 @@
 #!/bin/bash
 # usage: tools/run_thorough_bg.sh [IDs...] — builds the harness once, copies the binary aside and runs the thorough
 # tier of every (or the named) claimed check from that copy, so that later edits of the harness do not interfere.
-# One line per check in /tmp/thorough.log. (The registered commands are ./check <ID> --tier thorough.)
+# One line per check in /root/scratch/logs/thorough.log. (The registered commands are ./check <ID> --tier thorough.)
 cd /verif/harness && CARGO_NET_OFFLINE=true cargo build --release 2>/dev/null || exit 2
-BIN=/tmp/check-thorough-$$; cp target/release/check $BIN
+BIN=/root/scratch/check-thorough-$$; cp target/release/check $BIN
 IDS="$@"; [ -z "$IDS" ] && IDS=$(python3 -c "import json;print(' '.join(p['property_id'] for p in json.load(open('/verif/MANIFEST.json'))['checks']))")
-LOG=${LOG:-/tmp/thorough.log}; : > $LOG
+LOG=${LOG:-/root/scratch/logs/thorough.log}; : > $LOG
 for ID in $IDS; do
   t0=$(date +%s); out=$(VERIF_ROOT=/verif $BIN $ID --tier thorough 2>&1); rc=$?
   echo "$ID exit=$rc $(( $(date +%s) - t0 ))s $(echo "$out" | grep -E '^(OK|VIOLATION|MACHINERY|\[harness)' | head -2 | tr '\n' ' ' | cut -c1-220) known=$(echo "$out" | grep -c '^KNOWN-FINDING')" >> $LOG
